@@ -322,6 +322,11 @@ class RngStub:
             return np.array(p, dtype=np.int64)
         raise NotImplementedError
 
+    def shuffle(self, x):
+        # in place, by the permutation the harness chose for this draw (the same one `permutation` would have returned)
+        p = self.env.next_perm(len(x))
+        x[...] = np.array(x, copy=True)[list(p)]
+
     def choice(self, a, size=None, replace=True, p=None):
         n = int(a)
         size = int(size) if size is not None else 1
